@@ -197,11 +197,11 @@ env = {"mg": mg, "np": np, "nnet": nnet}
 env.update({k: v for k, v in globals().items() if not k.startswith("_")})
 owned = {}; carr = {}
 for ent in CS.get("leaves", []):
-    a = rng.rand(*ent[1]) * 0.5 + 0.25
+    a = np.asarray(rng.rand(*ent[1]) * 0.5 + 0.25)
     if len(ent) > 2 and ent[2] == "F" and len(ent[1]) >= 2: a = np.asfortranarray(a)
     owned[ent[0]] = a
 for name, shape in CS.get("carrs", []):
-    carr[name] = rng.rand(*shape) * 0.5 + 0.25; env[name] = carr[name]
+    carr[name] = np.asarray(rng.rand(*shape) * 0.5 + 0.25); env[name] = carr[name]
 keys = set(env)
 if CS.get("setup"): exec(CS["setup"], env)
 out_t = CS["body"].split("out=")[1].split(",")[0].split(")")[0].strip() if "out=" in CS["body"] else None
@@ -228,7 +228,7 @@ try:
     exec(CS["body"], env); out = env["out"]
     check("forward")
     od = out.data.copy()
-    g = rng.rand(*out.shape) + 0.5; g0 = g.copy()
+    g = np.asarray(rng.rand(*out.shape) + 0.5); g0 = g.copy()
     out.backward(g)
     check("backward")
     if not np.array_equal(out.data, od): bad.append("output data changed by backward")
